@@ -525,10 +525,12 @@ add("vk_c20_surround_mandatory", """
         """, functions=["rusty_pc::SurroundParser::parse"])
 
 # ------------------------------------------------------------------------------------------------ delimited lists
-for allow_missing in (False, True):
-    nm = "delimited_by_allow_missing" if allow_missing else "delimited_by"
-    add("vk_c20_" + nm, """
-        vk_reset(6);
+for allow_missing, budget in ((False, 5), (True, 5), (False, 3), (True, 4)):
+    nm = ("delimited_by_allow_missing" if allow_missing else "delimited_by")
+    # the small-budget twins exist for the replay: the playback run of the larger ones (result vector on the heap, full trace)
+    # needs more than 40 GB, so a counterexample of them cannot be extracted
+    add("vk_c20_" + nm + ("" if budget == 5 else "_short"), """
+        vk_reset(%d);
         let (mut input, start) = vk_start();
         let mut p = vk_any_progress(1).%s(vk_any_progress(2), VkErr { fatal: true, id: 77 });
         let r = Parser::<VkInput, u8>::parse(&mut p, &mut input);
@@ -568,7 +570,7 @@ for allow_missing in (False, True):
             }
             Err(e) => std::mem::forget(e),
         }
-        """ % (nm, "assert!(v.len() >= elements);" if allow_missing else "assert!(v.len() == elements);"), unwind=9,
+        """ % (budget, nm, "assert!(v.len() >= elements);" if allow_missing else "assert!(v.len() == elements);"), unwind=9,
         functions=["rusty_pc::delimited::DelimitedParser::parse", "rusty_pc::Parser::" + nm])
 
 # ------------------------------------------------------------------------------------------------ sequences
@@ -927,7 +929,7 @@ def spec(tier, seed):
         unwind = kw.get("unwind", 3)
         b.add(lib, name, body, unwind=unwind, cost=kw.get("cost", 30), tier="quick", core=kw.get("core", True),
               bounds="sub-parsers: arbitrary behaviours satisfying K, at most %s calls, moves of 0..3 positions; start position 0..4"
-                     % ("6" if "many" in name or "delimited" in name else "7")
+                     % ("5" if "delimited" in name else "6" if "many" in name else "7")
               if "primitives" not in name and "many_str" not in name and "many_chars" not in name else "every input of length <= 6 (many_str: <= 2) and every position",
               functions=kw["functions"])
     return b.build(
